@@ -15,3 +15,11 @@ package unionfind
 //@ func UnifyTermsExtend(xs, ys, base)
 //@   trusted
 //@   modifies nothing
+
+// ---- C01: find returns a representative -------------------------------------------------------------------------
+// Whatever find returns (other than nil for an unknown term) is a root of the forest: it is its own parent. (Path halving
+// rewrites parents on the way; that the root is the root OF THE ARGUMENT's tree, and termination, are not decided.)
+//@ func (uf UnionFind) find(s)
+//@   opt nosafety
+//@   ensures result != nil ==> uf.parent[result] == result
+//@   loop 1 invariant parent == uf.parent[child]
